@@ -22,21 +22,57 @@ PROPS = {
         "guards": ["accepted", "rejected-401", "rejected-403", "rejected-503", "kind-hmac", "kind-basic", "kind-forward"],
         "parts": [{"engine": "front", "test": "TestProp_C08_Auth", "quick": 2500, "thorough": 250000}],
     },
+    "C06": {
+        "rule": "outbound wiring tier (real `hookaido run` process per case, wall clock): generated config text with egress allow/deny lists over IPs, CIDRs and host names, "
+                "a defaults retry next to per-target retry overrides and partial deliver blocks, 0-6 secret versions with validity windows days away from now, 1-3 "
+                "fan-out targets on loopback addresses 127.0.0.1-3 that always answer 200/404/429/500/503/302, inline or secret_ref signing with newest_valid / "
+                "oldest_valid and custom header names, path segments that need escaping; one ingress POST, then the capture server's request log and the Admin API's "
+                "listing are judged: a target the policy denies gets no request and ends dead:policy_denied (C16); a target is contacted exactly retry.max+1 times for a "
+                "retryable answer, once otherwise, and ends delivered / dead:no_retry / dead:max_retries with the retry.max that applies to it (C06); every request sent "
+                "carries exactly one timestamp and one signature header, signed over (POST, escaped path, timestamp, body as sent) with the version the rule picks among "
+                "those valid now, and nothing is sent when none is valid (C17)",
+        "assumptions": ["outbound wiring tier: wall clock; deliveries that do not settle within 30 s are skipped (inconclusive) cases"],
+        "guards": [],
+        "parts": [{"engine": "front", "test": "TestProp_C06_OutboundProcess", "quick": 64, "thorough": 2400, "shards": {"quick": 8, "thorough": 16}, "needs_bins": ["hookaido"]}],
+    },
+    "C16": {
+        "rule": "outbound wiring tier (real `hookaido run` process per case, wall clock): generated config text with egress allow/deny lists over IPs, CIDRs and host names, "
+                "a defaults retry next to per-target retry overrides and partial deliver blocks, 0-6 secret versions with validity windows days away from now, 1-3 "
+                "fan-out targets on loopback addresses 127.0.0.1-3 that always answer 200/404/429/500/503/302, inline or secret_ref signing with newest_valid / "
+                "oldest_valid and custom header names, path segments that need escaping; one ingress POST, then the capture server's request log and the Admin API's "
+                "listing are judged: a target the policy denies gets no request and ends dead:policy_denied (C16); a target is contacted exactly retry.max+1 times for a "
+                "retryable answer, once otherwise, and ends delivered / dead:no_retry / dead:max_retries with the retry.max that applies to it (C06); every request sent "
+                "carries exactly one timestamp and one signature header, signed over (POST, escaped path, timestamp, body as sent) with the version the rule picks among "
+                "those valid now, and nothing is sent when none is valid (C17)",
+        "assumptions": ["outbound wiring tier: targets are IP-literal loopback hosts, so only IP/CIDR rules and the empty/non-empty allowlist rule decide"],
+        "guards": [],
+        "parts": [{"engine": "front", "test": "TestProp_C16_OutboundProcess", "quick": 64, "thorough": 2400, "shards": {"quick": 8, "thorough": 16}, "needs_bins": ["hookaido"]}],
+    },
     "C17": {
         "rule": "inbound half: HMAC routes with 0-3 secret_ref versions (windows before/around/after the clock, open and closed) plus direct secrets; "
                 "requests signed with each version at clock values around the window edges; accepted <=> some configured secret valid at the signed "
                 "timestamp verifies the request (an iff: rotation never rejects a valid secret); non-trivial = >=2 versions valid at the signed instant "
-                "or the signed instant within 1s of a window boundary",
+                "or the signed instant within 1s of a window boundary || " + "outbound wiring tier (real `hookaido run` process per case, wall clock): generated config text with egress allow/deny lists over IPs, CIDRs and host names, "
+                "a defaults retry next to per-target retry overrides and partial deliver blocks, 0-6 secret versions with validity windows days away from now, 1-3 "
+                "fan-out targets on loopback addresses 127.0.0.1-3 that always answer 200/404/429/500/503/302, inline or secret_ref signing with newest_valid / "
+                "oldest_valid and custom header names, path segments that need escaping; one ingress POST, then the capture server's request log and the Admin API's "
+                "listing are judged: a target the policy denies gets no request and ends dead:policy_denied (C16); a target is contacted exactly retry.max+1 times for a "
+                "retryable answer, once otherwise, and ends delivered / dead:no_retry / dead:max_retries with the retry.max that applies to it (C06); every request sent "
+                "carries exactly one timestamp and one signature header, signed over (POST, escaped path, timestamp, body as sent) with the version the rule picks among "
+                "those valid now, and nothing is sent when none is valid (C17)",
         "assumptions": [SAMPLED],
         "guards": ["accepted", "rejected-401", "near-window-boundary"],
-        "parts": [{"engine": "front", "test": "TestProp_C17_Inbound", "quick": 2500, "thorough": 250000}],
+        "parts": [{"engine": "front", "test": "TestProp_C17_Inbound", "quick": 2500, "thorough": 250000},
+                  {"engine": "front", "test": "TestProp_C17_OutboundProcess", "quick": 64, "thorough": 2400, "shards": {"quick": 8, "thorough": 16}, "needs_bins": ["hookaido"]}],
     },
     "C09": {
         "rule": "histories on one HMAC route over one process lifetime: fresh valid sends (timestamps at -tol, -tol+1s, 0, tol-1s, tol), verbatim replays, "
                 "re-signed requests reusing a nonce, bad-signature requests with used nonces, clock moves to ts+tol-1ns / ts+tol / ts+tol+1ns, floods of "
-                "1-1500 other nonces, reloads through the real reloadConfig (unchanged file, unrelated change, tolerance down/up, added secret), concurrent "
-                "bursts of 2-16 copies; oracle: per nonce at most one 202 while the first accepted request is inside its tolerance window, and #messages == #202; "
-                "non-trivial = a replay of an accepted request separated from it by a reload, a boundary-instant clock value or >=1000 nonces, or a burst",
+                "1-1500 other nonces (valid or with a bad signature), reloads through the real reloadConfig (unchanged file, unrelated change, tolerance down/up, added secret), "
+                "requests in flight across such a reload (the reload runs while the request body is being read: planned before, verified after), concurrent "
+                "bursts of 2-16 copies; a second generator (ManyNonces) puts 1023-16385 other live nonces (powers of two and neighbours) between an accepted "
+                "request and its replay; oracle: per nonce at most one 202 while the first accepted request is inside its tolerance window, and #messages == #202; "
+                "non-trivial = a replay of an accepted request separated from it by a reload (between or in flight), a boundary-instant clock value or >=1000 nonces, or a burst",
         "assumptions": [SAMPLED, "burst interleavings are sampled by the Go scheduler, not enumerated"],
         "guards": ["some-accepted", "replay-of-accepted", "reload-between", "boundary-instant"],
         "parts": [{"engine": "front", "test": "TestProp_C09_Replay", "quick": 4000, "thorough": 200000, "shards": {"quick": 8}},
